@@ -35,11 +35,28 @@
     same form from the Go error text and the response the client received (an item is carried when
     the three renderings occur in the text).
 
+  resp.signer <ids> <opts> <script>
+    ids     p | u | b | n        which of (private, public) key id is given to Client.Signer: p = private only …
+    opts    nil | h<0|1> (a crypto.Hash, supported or not) | p<0|1><0|1> (*rsa.PSSOptions: hash supported, salt ok)
+    script  - | <exchange>;<exchange>…   the server's answers to the successive requests, in order
+            exchange = <roundtrip>~<content>   content = what the helper reads in the FIRST item's payload:
+              -                                   nothing (no payload of the three types below)
+              A[<attr>.<attr>…]                   GetAttributes response: T<n> object type, G<n> algorithm,
+                                                  L<linktype>x<0|1> link (1: id not empty), M<n> usage mask,
+                                                  Tf Gf Lf Mf the same names with a value of a foreign Go type,
+                                                  O any other attribute
+              Kr | Ke<n> | Ko | Kx                Get response: PublicKey() = RSA / ECDSA (n bytes per
+                                                  coordinate) / another key type / an error
+              S<n>                                Sign response: n bytes of signature data
+    answer  signer err[ item …] | signer panic | sign err[ item …] | sign panic | ok conv=<0|1> used=<n>
+            (conv=1: raw r‖s converted to ASN.1; used: number of exchanges)
+
   resp.enumstr <op|status|reason> <value>   answer  the EnumStr string
   resp.registered <op>                      answer  yes | no
 -/
 import Driver.Common
 import KmipModel.Model.Negotiate
+import KmipModel.Model.ClientSigner
 import KmipModel.Gen.Schema
 import KmipModel.Model.Registry
 open Kmip.Resp Kmip.Nego
@@ -251,6 +268,96 @@ def respInterpret (api arg rts : String) : String :=
       | none => "bad-op"
     | _ => "bad-op"
 
+/-! ### Signer -/
+
+open Kmip.Signer in
+def parseAttr (s : String) : Option Attr :=
+  let k := (s.take 1).toString
+  let r := (s.drop 1).toString
+  if s = "O" then some .other
+  else if r = "f" then
+    match k with
+    | "T" => some (.objectType none)
+    | "G" => some (.alg none)
+    | "L" => some (.link none)
+    | "M" => some (.mask none)
+    | _ => none
+  else
+    match k with
+    | "T" => r.toNat?.map fun n => .objectType (some n)
+    | "G" => r.toNat?.map fun n => .alg (some n)
+    | "M" => r.toNat?.map fun n => .mask (some n)
+    | "L" =>
+      match r.splitOn "x" with
+      | [a, b] => do
+        let lt ← a.toNat?
+        let h ← b.toNat?
+        pure (.link (some (lt, h != 0)))
+      | _ => none
+    | _ => none
+
+open Kmip.Signer in
+def parseExchange (s : String) : Option Answer :=
+  match s.splitOn "~" with
+  | [rts, c] => do
+    let rt ← parseRoundTrip rts
+    let k := (c.take 1).toString
+    let r := (c.drop 1).toString
+    if c = "-" then pure { rt }
+    else if k = "A" then
+      let attrs ← if r = "" then some [] else (r.splitOn ".").mapM parseAttr
+      pure { rt, attrs }
+    else if k = "K" then
+      if r = "r" then pure { rt, key := some .rsa }
+      else if r = "o" then pure { rt, key := some .other }
+      else if r = "x" then pure { rt, key := none }
+      else if (r.take 1).toString = "e" then
+        let n ← (r.drop 1).toString.toNat?
+        pure { rt, key := some (.ecdsa n) }
+      else none
+    else if k = "S" then
+      let n ← r.toNat?
+      pure { rt, sigLen := n }
+    else none
+  | _ => none
+
+open Kmip.Signer in
+def parseSignOpts (s : String) : Option SignOpts :=
+  match s with
+  | "nil" => some .nil
+  | "h0" => some (.hash false)
+  | "h1" => some (.hash true)
+  | "p00" => some (.pss false false)
+  | "p01" => some (.pss false true)
+  | "p10" => some (.pss true false)
+  | "p11" => some (.pss true true)
+  | _ => none
+
+open Kmip.Signer in
+def renderSErr : SErr → String
+  | .exec e => renderErr e
+  | .helper => "err"
+
+open Kmip.Signer in
+def respSigner (ids opts scr : String) : String :=
+  let idsP : Option (Bool × Bool) := match ids with
+    | "p" => some (true, false) | "u" => some (false, true) | "b" => some (true, true) | "n" => some (false, false)
+    | _ => none
+  let script : Option (List Answer) := if scr = "-" then some [] else (scr.splitOn ";").mapM parseExchange
+  match idsP, parseSignOpts opts, script with
+  | some (priv, pub), some o, some script =>
+    match signer currentCode stdTables priv pub script with
+    | .err e => "signer " ++ renderSErr e
+    | .panic => "signer panic"
+    | .ok (s, rest) =>
+      match sign currentCode stdTables s o rest with
+      | .err e => "sign " ++ renderSErr e
+      | .panic => "sign panic"
+      | .ok c =>
+        -- the Sign exchange is only counted when the preliminary checks let the request go out
+        "ok conv=" ++ (if c then "1" else "0") ++ " used=" ++ toString (script.length - rest.length + 1)
+  | _, _, _ => "bad-op"
+
 def handleClient (cmd arg : String) : Option String :=
   match cmd with
   | "nego.adopt" => some <|
@@ -260,6 +367,10 @@ def handleClient (cmd arg : String) : Option String :=
   | "resp.interpret" => some <|
     match arg.splitOn " " with
     | [api, a, rt] => respInterpret api a rt
+    | _ => "bad-op"
+  | "resp.signer" => some <|
+    match arg.splitOn " " with
+    | [ids, opts, scr] => respSigner ids opts scr
     | _ => "bad-op"
   | "resp.enumstr" => some <|
     match arg.splitOn " " with
